@@ -209,8 +209,11 @@ def relations_event(darsia, rng, tid):
     return e
 
 
+EMD_SHARED = {}
+
+
 def emd_event(darsia, rng, tid):
-    H, W = rng.randint(2, 5), rng.randint(2, 5)
+    H, W = rng.choice([(3, 4), (3, 4), (2, 5), (4, 4), (rng.randint(2, 5), rng.randint(2, 5))])   # shapes recur with other voxel sizes
     hs = [rng.choice([1.0, 0.5, 2.0]), rng.choice([1.0, 0.25, 3.0])]
     p = (rng.randrange(H), rng.randrange(W))
     q = (rng.randrange(H), rng.randrange(W))
@@ -223,9 +226,13 @@ def emd_event(darsia, rng, tid):
     try:
         img1, img2 = make_images(darsia, (H, W), hs, a1, a2)
         s1, s2 = make_images(darsia, (H, W), hs, 2 * a1, 2 * a2)
+        # one long-lived back-end object serves images of the same shape with other voxel sizes, as in a processing loop
+        emd = EMD_SHARED.setdefault("emd", darsia.EMD()) if rng.random() < 0.7 else darsia.EMD()
         e["d6"] = d6(darsia.wasserstein_distance(img1, img2, method="cv2.emd"))
-        e["swap6"] = d6(darsia.EMD()(img2, img1))
-        e["scaled6"] = d6(darsia.EMD()(s1, s2))
+        e["swap6"] = d6(emd(img2, img1))
+        e["scaled6"] = d6(emd(s1, s2))
+        if not np.isclose(float(emd(img1, img2)), float(darsia.EMD()(img1, img2)), rtol=1e-9, atol=1e-12):
+            e["swap6"] = -1      # the re-used object disagrees with a fresh one
         dist = float(np.hypot((p[0] - q[0]) * hs[0], (p[1] - q[1]) * hs[1]))
         e["expected6"] = d6(m * hs[0] * hs[1] * dist)
     except Exception as ex:  # noqa
@@ -260,7 +267,7 @@ def run(ck, replay=None):
         events.append(thin_event(darsia, rng, f"thinlong:{i}", m1, m2))
     for i in range(6 if quick else 100):   # ~5-15 s each (six solver runs of up to 60 iterations)
         events.append(relations_event(darsia, rng, f"rel:{i}"))
-    for i in range(8 if quick else 100):
+    for i in range(16 if quick else 150):
         events.append(emd_event(darsia, rng, f"emd:{i}"))
     bad = ck.validate("Trace_TransportCost", "Trace.cfg", events, chunk=500)
     for b in bad:
